@@ -6,6 +6,7 @@ import (
 	"crypto/tls"
 	"encoding/base64"
 	"encoding/json"
+	"errors"
 	"fmt"
 	"io"
 	"math/rand/v2"
@@ -18,6 +19,7 @@ import (
 	"strings"
 	"sync"
 	"sync/atomic"
+	"syscall"
 	"time"
 
 	"github.com/gorilla/websocket"
@@ -37,7 +39,8 @@ type Scenario struct {
 	GoodUDP bool          `json:"good_udp"`
 	Peers   []HostilePlan `json:"peers"`
 
-	PubBurst int `json:"pub_burst,omitempty"` // packets the publisher writes per media and tick (default 1)
+	PubBurst   int `json:"pub_burst,omitempty"`   // packets the publisher writes per media and tick (default 1)
+	PubPayload int `json:"pub_payload,omitempty"` // payload size of the publisher's packets (default: a few bytes)
 }
 
 // HostilePlan is what one hostile peer does.
@@ -63,6 +66,25 @@ type HostilePlan struct {
 	Flood      int      `json:"flood,omitempty"`       // after the chunks: this many requests in a tight loop …
 	FloodReqs  [][]byte `json:"flood_reqs,omitempty"`  // … taken in turn from this list
 	FloodDrain string   `json:"flood_drain,omitempty"` // while flooding the peer reads "fast", "slow" or not at all ("none")
+
+	DelaysMs []int `json:"delays_ms,omitempty"` // extra pause before chunk k
+
+	// HTTP tunnel (B64): the peer aborts ONE half ("post" or "get") with a TCP RST (SO_LINGER 0) once it has sent
+	// RSTAfter chunks; the server must close the other half (seen from the peer: EOF / error on its socket)
+	RSTHalf  string `json:"rst_half,omitempty"`
+	RSTAfter int    `json:"rst_after,omitempty"`
+
+	// from chunk UDPFloodFrom on (sent while the flood runs) the peer sends the datagrams of UDPFlood in a
+	// tight loop from its bound ports until it ends
+	UDPFlood      []UDPSend `json:"udp_flood,omitempty"`
+	UDPFloodFrom  int       `json:"udp_flood_from,omitempty"`
+	UDPFloodRTPMs int       `json:"udp_flood_rtp_ms,omitempty"` // > 0: each datagram to the RTP port is sent at most once per this many ms (the others in a tight loop)
+
+	Rounds int `json:"rounds,omitempty"` // the whole plan is played this many times, one after the other (default 1)
+
+	// before chunk WaitQueueFull (> 0) the peer waits (up to 6 s) until the server reports that the write queue of
+	// the peer's session overflowed (OnStreamWriteError): the session's writer is stuck in a socket write
+	WaitQueueFull int `json:"wait_queue_full,omitempty"`
 }
 
 // UDPSend is one datagram of a hostile peer.
@@ -70,6 +92,10 @@ type UDPSend struct {
 	FromRTCP bool   `json:"from_rtcp,omitempty"` // sent from the peer's RTCP port (else RTP port)
 	ToRTCP   bool   `json:"to_rtcp,omitempty"`   // sent to the server's RTCP port (else RTP port)
 	Data     []byte `json:"data"`
+
+	// LearnSSRC: before this datagram is sent the peer reads the server's RTCP on its RTCP port (up to 3 s)
+	// and takes the sender SSRC of the first receiver report; the bytes DE AD BE EF in Data become that SSRC
+	LearnSSRC bool `json:"learn_ssrc,omitempty"`
 }
 
 // ScenarioResult is what a child process reports for one scenario.
@@ -94,9 +120,14 @@ type publisher struct {
 	sent atomic.Int64
 }
 
-func startPublisher(ts *testServer, burst int) *publisher {
+func startPublisher(ts *testServer, burst, payload int) *publisher {
 	if burst < 1 {
 		burst = 1
+	}
+	pl0, pl1 := []byte{0x41, 1, 2, 3, 4}, []byte{1, 2, 3, 4}
+	if payload > len(pl0) {
+		pl0 = append(pl0, make([]byte, payload-len(pl0))...)
+		pl1 = append(pl1, make([]byte, payload-len(pl1))...)
 	}
 	p := &publisher{ts: ts, stop: make(chan struct{}), done: make(chan struct{})}
 	go func() {
@@ -114,11 +145,11 @@ func startPublisher(ts *testServer, burst int) *publisher {
 				seq++
 				ts.stream.WritePacketRTP(ts.stream.Desc.Medias[0], &rtp.Packet{
 					Header:  rtp.Header{Version: 2, PayloadType: 96, SequenceNumber: seq, Timestamp: uint32(seq) * 360},
-					Payload: []byte{0x41, 1, 2, 3, 4},
+					Payload: pl0,
 				})
 				ts.stream.WritePacketRTP(ts.stream.Desc.Medias[1], &rtp.Packet{
 					Header:  rtp.Header{Version: 2, PayloadType: 0, SequenceNumber: seq, Timestamp: uint32(seq) * 32},
-					Payload: []byte{1, 2, 3, 4},
+					Payload: pl1,
 				})
 				p.sent.Add(1)
 			}
@@ -390,21 +421,43 @@ type peerOutcome struct {
 }
 
 func runHostile(ts *testServer, plan *HostilePlan, goodPorts [2]int, limit time.Duration) peerOutcome {
+	out := runHostileOnce(ts, plan, goodPorts, limit)
+	for r := 1; r < plan.Rounds && (out.closedBy == "self" || out.closedBy == "server"); r++ {
+		out = runHostileOnce(ts, plan, goodPorts, limit)
+	}
+	return out
+}
+
+func runHostileOnce(ts *testServer, plan *HostilePlan, goodPorts [2]int, limit time.Duration) peerOutcome {
 	out := peerOutcome{label: plan.Label}
+	raws := map[net.Conn]*net.TCPConn{}
+	// abort a connection: RST instead of FIN, nothing of TLS is sent
+	rst := func(c net.Conn) {
+		if t := raws[c]; t != nil {
+			t.SetLinger(0)
+			t.Close()
+		}
+	}
 	var locals []string // local addresses of the peer's sockets = remote addresses of its server-side connections
 	dialOne := func() (net.Conn, error) {
-		c, err := net.DialTimeout("tcp", ts.addr, 2*time.Second)
+		d := net.Dialer{Timeout: 2 * time.Second}
+		if plan.SmallRcv {
+			// before the connection is made: the window the peer offers is small from the start
+			d.Control = func(_, _ string, rc syscall.RawConn) error {
+				return rc.Control(func(fd uintptr) { syscall.SetsockoptInt(int(fd), syscall.SOL_SOCKET, syscall.SO_RCVBUF, 2048) })
+			}
+		}
+		c, err := d.Dial("tcp", ts.addr)
 		if err != nil {
 			return nil, err
 		}
 		locals = append(locals, c.LocalAddr().String())
-		if plan.SmallRcv {
-			c.(*net.TCPConn).SetReadBuffer(2048)
-		}
 		if plan.Raw || !ts.cfg.TLS {
+			raws[c] = c.(*net.TCPConn)
 			return c, nil
 		}
 		tc := tls.Client(c, &tls.Config{InsecureSkipVerify: true})
+		raws[tc] = c.(*net.TCPConn)
 		c.SetDeadline(time.Now().Add(3 * time.Second))
 		if err := tc.Handshake(); err != nil {
 			c.Close()
@@ -460,6 +513,7 @@ func runHostile(ts *testServer, plan *HostilePlan, goodPorts [2]int, limit time.
 		n, err := nc.Read(buf)
 		return buf[:n], err
 	}
+	var post net.Conn
 	switch {
 	case plan.B64:
 		cookie := fmt.Sprintf("c%d", rand.Int64())
@@ -469,7 +523,8 @@ func runHostile(ts *testServer, plan *HostilePlan, goodPorts [2]int, limit time.
 		nc.Read(buf)
 		nc.SetReadDeadline(time.Time{})
 		time.Sleep(20 * time.Millisecond)
-		post, perr := dialOne()
+		var perr error
+		post, perr = dialOne()
 		if perr == nil {
 			defer post.Close()
 			post.Write(httpPostReq(cookie))
@@ -501,7 +556,7 @@ func runHostile(ts *testServer, plan *HostilePlan, goodPorts [2]int, limit time.
 	// background reader: "fast", "slow" or none
 	var mu sync.Mutex
 	sid := "00000000000000000000000000000000"
-	var closed, quit atomic.Bool
+	var closed, quit, rstGet atomic.Bool
 	var responses atomic.Int64
 	var mode atomic.Int32 // 0 fast, 1 slow, 2 paused
 	readerDone := make(chan struct{})
@@ -535,7 +590,9 @@ func runHostile(ts *testServer, plan *HostilePlan, goodPorts [2]int, limit time.
 					responses.Add(int64(bytes.Count(b, []byte("RTSP/1.0 "))))
 				}
 				if err != nil {
-					closed.Store(true)
+					if !rstGet.Load() { // else: the peer itself aborted this socket
+						closed.Store(true)
+					}
 					return
 				}
 			}
@@ -557,9 +614,109 @@ func runHostile(ts *testServer, plan *HostilePlan, goodPorts [2]int, limit time.
 		}
 		return b
 	}
+	// the peer's datagram flood (runs until the peer ends)
+	floodStop := make(chan struct{})
+	var floodWG sync.WaitGroup
+	defer func() { close(floodStop); floodWG.Wait() }()
+	startFlood := func() {
+		if urtp == nil {
+			return
+		}
+		rtpPort, rtcpPort := ts.s.VerifUDPPorts()
+		floodWG.Add(1)
+		go func() {
+			defer floodWG.Done()
+			seq := uint16(0)
+			gap := time.Duration(plan.UDPFloodRTPMs) * time.Millisecond
+			lastRTP := make([]time.Time, len(plan.UDPFlood))
+			for n := 0; ; n++ {
+				for di, d := range plan.UDPFlood {
+					select {
+					case <-floodStop:
+						return
+					default:
+					}
+					if !d.ToRTCP && gap > 0 {
+						if time.Since(lastRTP[di]) < gap {
+							continue
+						}
+						lastRTP[di] = time.Now()
+					}
+					from, to := urtp, rtpPort
+					if d.FromRTCP {
+						from = urtcp
+					}
+					if d.ToRTCP {
+						to = rtcpPort
+					}
+					data := d.Data
+					if !d.ToRTCP && len(data) >= 12 && data[0]>>6 == 2 { // RTP: running sequence number
+						seq++
+						data = append([]byte{}, data...)
+						data[2], data[3] = byte(seq>>8), byte(seq)
+					}
+					if to != 0 {
+						from.WriteToUDP(data, &net.UDPAddr{IP: net.IPv4(127, 0, 0, 1), Port: to})
+					}
+				}
+				if n%4 == 3 {
+					time.Sleep(100 * time.Microsecond)
+				}
+			}
+		}()
+	}
+	// the write queue of a session of this peer overflowed
+	queueFull := func() bool {
+		ts.mu.Lock()
+		conns := append(ts.conns[:0:0], ts.conns...)
+		ts.mu.Unlock()
+		for _, sc := range conns {
+			ra := sc.NetConn().RemoteAddr().String()
+			for _, l := range locals {
+				if ra == l {
+					if ss := sc.Session(); ss != nil {
+						ts.mu.Lock()
+						n := ts.writeErrs[ss]
+						ts.mu.Unlock()
+						if n > 0 {
+							return true
+						}
+					}
+				}
+			}
+		}
+		return false
+	}
+	rstDone := false
+	doRST := func() {
+		rstDone = true
+		if plan.RSTHalf == "get" {
+			rstGet.Store(true)
+			rst(nc)
+		} else if post != nil {
+			rst(post)
+		}
+	}
 	for k, ch := range plan.Chunks {
+		if plan.RSTHalf != "" && k == plan.RSTAfter {
+			doRST()
+			if plan.RSTHalf != "get" {
+				break // nothing can be sent any more
+			}
+		}
 		if plan.StallAfter > 0 && k == plan.StallAfter {
 			mode.Store(2)
+		}
+		if len(plan.UDPFlood) > 0 && k == plan.UDPFloodFrom {
+			startFlood()
+		}
+		if plan.WaitQueueFull > 0 && k == plan.WaitQueueFull {
+			for t := time.Now(); !queueFull() && time.Since(t) < 6*time.Second; {
+				time.Sleep(2 * time.Millisecond)
+			}
+		}
+		if k < len(plan.DelaysMs) && plan.DelaysMs[k] > 0 {
+			time.Sleep(time.Duration(plan.DelaysMs[k]) * time.Millisecond)
 		}
 		if err := write(subst(ch)); err != nil {
 			break
@@ -575,6 +732,39 @@ func runHostile(ts *testServer, plan *HostilePlan, goodPorts [2]int, limit time.
 			time.Sleep(time.Duration(plan.PauseMs) * time.Millisecond)
 		}
 	}
+	if plan.RSTHalf != "" && post != nil {
+		if !rstDone {
+			doRST()
+		}
+		// the other half must be closed by the server: seen on the peer's own socket
+		t0 := time.Now()
+		ok := false
+		if plan.RSTHalf == "get" {
+			buf := make([]byte, 4096)
+			post.SetReadDeadline(t0.Add(limit))
+			for {
+				if _, rerr := post.Read(buf); rerr != nil {
+					var ne net.Error
+					ok = !(errors.As(rerr, &ne) && ne.Timeout())
+					break
+				}
+			}
+		} else {
+			for !closed.Load() && time.Since(t0) < limit {
+				time.Sleep(10 * time.Millisecond)
+			}
+			ok = closed.Load()
+		}
+		out.waited = time.Since(t0)
+		out.closedBy = "server"
+		if !ok {
+			out.closedBy = "half-open"
+		}
+		quit.Store(true)
+		nc.Close()
+		<-readerDone
+		return out
+	}
 	// datagrams from the negotiated address
 	if urtp != nil {
 		rtpPort, rtcpPort := ts.s.VerifUDPPorts()
@@ -587,8 +777,24 @@ func runHostile(ts *testServer, plan *HostilePlan, goodPorts [2]int, limit time.
 			if d.ToRTCP {
 				to = rtcpPort
 			}
+			data := d.Data
+			if d.LearnSSRC {
+				buf := make([]byte, 2048)
+				deadline := time.Now().Add(3 * time.Second)
+				for time.Now().Before(deadline) {
+					urtcp.SetReadDeadline(deadline)
+					n, _, rerr := urtcp.ReadFromUDP(buf)
+					if rerr != nil {
+						break
+					}
+					if n >= 8 && buf[1] == 201 {
+						data = bytes.ReplaceAll(append([]byte{}, d.Data...), []byte{0xDE, 0xAD, 0xBE, 0xEF}, buf[4:8])
+						break
+					}
+				}
+			}
 			if to != 0 {
-				from.WriteToUDP(d.Data, &net.UDPAddr{IP: net.IPv4(127, 0, 0, 1), Port: to})
+				from.WriteToUDP(data, &net.UDPAddr{IP: net.IPv4(127, 0, 0, 1), Port: to})
 			}
 			time.Sleep(time.Millisecond)
 		}
@@ -672,6 +878,22 @@ func waitLibGoroutines(want int, d time.Duration) (int, string) {
 	}
 }
 
+// fdCount: open file descriptors of this process (-1: unknown).
+func fdCount() int {
+	fdWarm.Do(func() { // the runtime's poller opens its own descriptors at the first use of the network
+		if l, err := net.Listen("tcp", "127.0.0.1:0"); err == nil {
+			l.Close()
+		}
+	})
+	es, err := os.ReadDir("/proc/self/fd")
+	if err != nil {
+		return -1
+	}
+	return len(es)
+}
+
+var fdWarm sync.Once
+
 // ---- running one scenario --------------------------------------------------------------------
 
 var tainted atomic.Bool
@@ -692,6 +914,7 @@ func runScenario(sc *Scenario, accountGoroutines bool) (res ScenarioResult) {
 	}
 	const idle = 2 * time.Second
 	const read = 500 * time.Millisecond
+	fd0 := fdCount()
 	ts, err := startServerW(sc.Cfg, idle, read, 500*time.Millisecond, 1)
 	if err != nil {
 		res.Stats["server-start-failed"] = 1
@@ -704,7 +927,7 @@ func runScenario(sc *Scenario, accountGoroutines bool) (res ScenarioResult) {
 		}
 	}()
 	base0, _ := libGoroutines()
-	pub := startPublisher(ts, sc.PubBurst)
+	pub := startPublisher(ts, sc.PubBurst, sc.PubPayload)
 	pubStopped := false
 	defer func() {
 		if !pubStopped {
@@ -792,6 +1015,10 @@ func runScenario(sc *Scenario, accountGoroutines bool) (res ScenarioResult) {
 	wg.Wait()
 	for i, o := range outs {
 		res.Stats["peer-closed-by-"+strings.SplitN(o.closedBy, ":", 2)[0]]++
+		if o.closedBy == "half-open" {
+			fail("once the hostile connection has ended, everything tied to it is released", "tunnel-half-left-open",
+				fmt.Sprintf("peer %d (%s) aborted one connection of its HTTP tunnel with a TCP RST; %v later the server still had not closed the other connection of the tunnel", i, o.label, o.waited.Round(time.Millisecond)))
+		}
 		if o.closedBy == "timeout" {
 			fail("the server answers or closes the connection within its timeouts", "hostile-not-closed",
 				fmt.Sprintf("peer %d (%s) stayed silent for %v and was neither answered nor closed (IdleTimeout %v, ReadTimeout %v)", i, o.label, o.waited.Round(time.Millisecond), idle, read))
@@ -967,8 +1194,30 @@ func runScenario(sc *Scenario, accountGoroutines bool) (res ScenarioResult) {
 		if n, dump := waitLibGoroutines(0, 3*time.Second); n > 0 {
 			fail("goroutines are released", "goroutine-leak-after-close", fmt.Sprintf("%d library goroutines after Server.Close:\n%s", n, truncate(dump, 6000)))
 		}
+		// every socket of the server (listeners, accepted connections, tunnel halves) is closed
+		if fd0 >= 0 {
+			n := fdCount()
+			for t := time.Now(); n > fd0 && time.Since(t) < 3*time.Second; n = fdCount() {
+				time.Sleep(20 * time.Millisecond)
+			}
+			res.Stats["fds-over-baseline"] = n - fd0
+			if n > fd0 {
+				fail("once the connections have ended, their descriptors are released", "fd-leak",
+					fmt.Sprintf("%d open file descriptors before the server was started, %d after all peers ended and Server.Close returned:\n%s", fd0, n, fdList()))
+			}
+		}
 	}
 	return
+}
+
+func fdList() string {
+	es, _ := os.ReadDir("/proc/self/fd")
+	var out []string
+	for _, e := range es {
+		t, _ := os.Readlink("/proc/self/fd/" + e.Name())
+		out = append(out, e.Name()+" -> "+t)
+	}
+	return strings.Join(out, "\n")
 }
 
 func truncate(s string, n int) string {
@@ -1024,6 +1273,19 @@ type childOut struct {
 // childMain runs the scenarios of a job file one after the other; the index of the scenario in
 // progress is kept in <file>.progress so that the parent can attribute a crash.
 func childMain(file string) {
+	// "corpus:<substring>:<file>": write the corpus scenarios whose name contains the substring to the file and
+	// run them (development aid)
+	if f := strings.SplitN(file, ":", 3); len(f) == 3 && f[0] == "corpus" {
+		var job childJob
+		for _, sc := range corpusScenarios() {
+			if strings.Contains(sc.Name, f[1]) {
+				job.Scenarios = append(job.Scenarios, sc)
+			}
+		}
+		jb, _ := json.Marshal(job)
+		os.WriteFile(f[2], jb, 0o644)
+		file = f[2]
+	}
 	b, err := os.ReadFile(file)
 	if err != nil {
 		fmt.Fprintln(os.Stderr, err)
